@@ -504,8 +504,7 @@ class Multiplexer(wiring.Component):
     """
     def __init__(self, memory_map, *, shadow_overlaps=None):
         self._check_memory_map(memory_map)
-        self._r_shadow = self._Shadow(memory_map.data_width, shadow_overlaps, name="r_shadow")
-        self._w_shadow = self._Shadow(memory_map.data_width, shadow_overlaps, name="w_shadow")
+        self._shadow_overlaps = shadow_overlaps
         super().__init__({
             "bus": In(Signature(addr_width=memory_map.addr_width,
                                 data_width=memory_map.data_width))
@@ -529,6 +528,11 @@ class Multiplexer(wiring.Component):
 
     def elaborate(self, platform):
         m = Module()
+
+        # The shadow registers are rebuilt on each elaboration, so that a multiplexer can be
+        # elaborated more than once (e.g. simulated, then synthesized).
+        self._r_shadow = self._Shadow(self.bus.data_width, self._shadow_overlaps, name="r_shadow")
+        self._w_shadow = self._Shadow(self.bus.data_width, self._shadow_overlaps, name="w_shadow")
 
         for reg, _, (reg_start, reg_end) in self.bus.memory_map.resources():
             reg_range = range(reg_start, reg_end)
